@@ -22,6 +22,7 @@ type EvalCase struct {
 
 var c03Eval *eng.Kind[EvalCase]
 var c03Gen *eng.Kind[GenCase]
+var c03Misuse *eng.Kind[EvalCase]
 
 func init() {
 	c := eng.Register(&eng.Check{
@@ -33,6 +34,19 @@ func init() {
 		Run:         runC03,
 	})
 	c03Eval = eng.NewKind(c, "eval", judgeC03)
+	c03Misuse = eng.NewKind(c, "misuse", func(c EvalCase) *eng.Fail {
+		if f := judgeC03(c); f != nil {
+			return f
+		}
+		o, err := evalSrc(c.Src, dataConfig(c.Data))
+		if err != nil {
+			return eng.F("harness/misuse", "%s does not parse: %v", c.Src, err)
+		}
+		if o.err == nil {
+			return eng.F("C03/misuse-not-reported", "%s is misuse the statement names (not a function, wrong argument count or type, position out of range, invalid regular expression, comparing arrays or maps, missing struct field, assertion on null) but evaluates to %s without an error", c.Src, show(o.val))
+		}
+		return nil
+	})
 	c03Gen = eng.NewKind(c, "gen", func(c GenCase) *eng.Fail {
 		g := pathGens[c.Gen]
 		if g == nil {
@@ -213,6 +227,20 @@ func runC03(w *eng.W) {
 				do("binary", a.Expr+" "+op+" "+b.Expr, "zoo")
 			}
 		}
+	}
+	// (g) the misuse the statement lists is reported through the returned error (never a value)
+	for _, src := range []string{"s(1)", "x(1)", "n()", "arr(0)", "m.k(1)", "st()", "len()", "len(1, 2)", "left('abc')", "left('abc', 'x')", "mid('abc', 'a', 2)", "date('a', 1, 1)", "left('abc', -1)", "right('abc', -1)",
+		"regexp('ab', '(')", "regexp('ab', 'a)(b')", "regexp('ab', ')(')", "regexp('ab', 'x)|(y')", "regexp('ab', '[a-')", "regexp('ab', '*a')", "regexp('ab', 'a)')", "regexp('ab', '(?z)a')",
+		"arr == arr", "[1] == [1]", "m == m", "m != m", "st.Missing", "st.Missing.x", "f((1)...)", "f(m...)", "len([1]...)", "n!.k", "m.q!.k"} {
+		if !w.Take() {
+			continue
+		}
+		w.State(1)
+		w.Trans(1)
+		w.Trace(1)
+		w.Note("leg:reported-misuse", 1)
+		w.Sample("reported-misuse", src)
+		c03Misuse.Do(w, EvalCase{Src: src, Data: "sigma"})
 	}
 	// (c) builtins x argument lists
 	argAlpha := []string{"null", "true", "1", "-1", "2.5", "1e6", "1e30", "(0/0)", "'abc'", "''", "'('", "[1,'a']", "['a','b']", "v32", "v41", "[[1]]", "-3", "0", "1e-30000000", "this", "($c = this)", "92233720368547758080e999999999", "92233720368547758080e-999999999", "1e-999999999", "'12345678901234567890123e99999999'"}
